@@ -17,6 +17,13 @@ STREAMS = {
 
 CTXS = [None, {'k': 1}, {'k': 2, 'z': 's'}, {}]
 
+# emits performed by a real parse(): the formula text per event kind, and the arguments the listeners are shown
+PARSE_TEXT = {'callVariable': lambda t: 'tok_%d_v' % t, 'callCellValue': lambda t: 'A%d' % (t + 1),
+              'callRangeValue': lambda t: 'A%d:B%d' % (t + 1, t + 2), 'callFunction': lambda t: 'SUM(%d)' % t}
+PARSE_ARGS = {'callVariable': lambda t: ['tok_%d_v' % t, '<setter>'], 'callCellValue': lambda t: ['<cell A%d>' % (t + 1), '<setter>'],
+              'callRangeValue': lambda t: ['<cell A%d>' % (t + 1), '<cell B%d>' % (t + 2), '<setter>'],
+              'callFunction': lambda t: ['SUM', [t], '<setter>']}
+
 
 def config(tier, seed):
     return {}
@@ -35,7 +42,7 @@ def _gen_op(rng, names, ncb, inner, allow_parse):
     if r < 0.68:
         return ['off', name, rng.randrange(ncb)]
     if allow_parse and r < 0.74:
-        return ['parse']
+        return ['parse', rng.choice(['callVariable', 'callCellValue', 'callRangeValue', 'callFunction'])]
     nargs = rng.choice([0, 1, 1, 2, 3])
     return ['emit', name, [rng.choice([0, 1, 'x', None, True, 2.5, [1, 2]]) for _ in range(nargs)]]
 
@@ -44,7 +51,7 @@ def gen(stream, rng, i, cfg):
     target = 'parser' if stream == 'parser' else 'emitter'
     names = ['a', 'b', 'c'][:rng.choice([1, 2, 2, 3])]
     if target == 'parser' and rng.random() < 0.7:
-        names = names[:2] + ['callVariable']
+        names = names[:1] + rng.sample(['callVariable', 'callCellValue', 'callRangeValue', 'callFunction'], rng.choice([1, 2]))
     ncb = rng.randrange(2, 6)
     nobj = rng.choice([1, 1, 2])
     callbacks = []
@@ -60,7 +67,7 @@ def gen(stream, rng, i, cfg):
                 script.append(_gen_op(rng, names, ncb, True, False))
         callbacks.append({'kind': kind, 'obj': rng.randrange(nobj), 'script': script})
     nops = rng.choice([1, 2, 3, 5, 8, 12, 20, 40]) if rng.random() < 0.5 else rng.randrange(1, 41)
-    ops = [_gen_op(rng, names, ncb, False, target == 'parser' and 'callVariable' in names) for _ in range(nops)]
+    ops = [_gen_op(rng, names, ncb, False, target == 'parser' and any(n.startswith('call') for n in names)) for _ in range(nops)]
     return {'target': target, 'names': names, 'callbacks': callbacks, 'ops': ops}
 
 
@@ -100,7 +107,8 @@ class Model(object):
             self.emit(op[1], list(op[2]))
         elif k == 'parse':
             tok = self.next_tok
-            self.emit('callVariable', ['tok_%d_v' % tok, '<setter>'])
+            ev = op[1] if len(op) > 1 else 'callVariable'
+            self.emit(ev, PARSE_ARGS[ev](tok))
 
     def emit(self, name, args):
         tok = self.next_tok
@@ -166,7 +174,7 @@ class Real(object):
         return type('HostObj', (_Obj,), {})()
 
     def _invoke(self, i, args, ctx):
-        shown = ['<setter>' if callable(a) else a for a in args]
+        shown = ['<setter>' if callable(a) else ('<cell %s>' % a.label if hasattr(a, 'label') and hasattr(a, 'row') else a) for a in args]
         self.log.append([i, self.cur_tok[-1] if self.cur_tok else -1, canon.canon(shown), canon.canon(ctx)])
         n = self.inv[i]
         self.inv[i] = n + 1
@@ -216,10 +224,11 @@ class Real(object):
                 self.cur_tok.pop()
         elif k == 'parse':
             tok = self.next_tok
+            ev = op[1] if len(op) > 1 else 'callVariable'
             self.cur_tok.append(tok)
             self.next_tok += 1
             try:
-                self.em.parse('tok_%d_v' % tok)
+                self.em.parse(PARSE_TEXT[ev](tok))
             finally:
                 self.cur_tok.pop()
 
